@@ -65,7 +65,9 @@ BRANCHES = ['gen:k_fold', 'gen:k_fold_rdm', 'gen:k_fold_pattern', 'gen:of_k_rdm'
             'loo:single_group', 'cv:interpolate', 'fit:regress', 'fit:regress_nn', 'fit:optimize',
             'fit:optimize_positive', 'fit:fitter_obj', 'cv:cov_method', 'cv:nc_given_ceil',
             'cv:nc_no_ceil', 'cv:skipped_fold', 'cv:bootcv', 'bootcv:both', 'bootcv:rdm',
-            'bootcv:pattern', 'bootcv:default_k', 'cv:bare_model']
+            'bootcv:pattern', 'bootcv:default_k', 'cv:bare_model',
+            # round 3
+            'cv:multi_model_multi_fold', 'cv:three_models']
 ASSUMPTIONS = [
     'descriptor values are mapped to natural-number codes (non-negative ints as themselves, strings '
     'by rank) before they reach the model; np.unique orders ints numerically and strings by code point',
@@ -265,11 +267,19 @@ def _run_sets(case, matrix=None):
 
 # ------------------------------------------------------------------ crossval experiment
 
-def _make_model(case):
+def _model_specs(case):
+    """the models of a crossval case: the primary one plus the extra ones (different seeds, hence
+    distinguishable predictions)"""
+    extra = list(case.get('extra_models', []))
+    pos = case.get('primary_pos', 0)
+    return extra[:pos] + [case['model']] + extra[pos:]
+
+
+def _make_model(case, ms=None):
     from rsatoolbox.rdm import RDMs
     from rsatoolbox import model as M
     from rsatoolbox.model import fitter as FT
-    ms = case['model']
+    ms = ms or case['model']
     nC = ms['n_cond']
     rs = np.random.RandomState(ms['seed'])
     nvec = nC * (nC - 1) // 2
@@ -324,18 +334,25 @@ def _cv_once(case, matrix, fixed_thetas=None):
             thetas=[…], evals=[…]) or dict(exc=…)"""
     from rsatoolbox.inference import evaluate as ev
     rdms = _build(case, matrix)
-    model, base_fit = _make_model(case)
+    specs = _model_specs(case)
+    built = [_make_model(case, ms_) for ms_ in specs]
+    models = [b[0] for b in built]
+    model = models[0]
+    model_arg = model if case.get('bare_model') and len(models) == 1 else models
     pvals, pby = _axis(case, 'pat')
     _, rby = _axis(case, 'rdm')
     pmap = _codes(pvals)
     rvals, _ = _axis(case, 'rdm')
     rmap = _codes(rvals)
-    rec = {'fit': [], 'cmp': [], 'thetas': [], 'raw_thetas': [], 'sets': [], 'calls': [], 'evals': []}
+    rec = {'fit': [], 'cmp': [], 'thetas': [], 'raw_thetas': [], 'sets': [], 'calls': [],
+           'evals': [[] for _ in models], 'hook_scores': [], 'test_objs': [], 'fit_model': []}
     calls = [0]
-    ms = case['model']
-    stochastic = ms.get('fitter') in ('optimize', 'optimize_positive')
 
     def fitter(mdl, data, method='cosine', pattern_idx=None, pattern_descriptor=None, **kw):
+        j = next(q for q, m_ in enumerate(models) if m_ is mdl)
+        ms, base_fit = specs[j], built[j][1]
+        stochastic = ms.get('fitter') in ('optimize', 'optimize_positive')
+        rec['fit_model'].append(j)
         c = _obj_content(data)
         c['pidx'] = sorted(int(v) for v in pattern_idx) if case['gen'] in RDM_ONLY \
             else sorted(_code_of(pmap, v) for v in pattern_idx)
@@ -374,7 +391,9 @@ def _cv_once(case, matrix, fixed_thetas=None):
         except KeyError:
             c['pred_ok'] = False
         rec['cmp'].append(c)
-        return real_compare(pred, data, method, **kw)
+        out = real_compare(pred, data, method, **kw)
+        rec['hook_scores'].append(float(np.mean(out)))
+        return out
 
     def note_sets(train, test):
         for tr, te in zip(train, test):
@@ -385,6 +404,7 @@ def _cv_once(case, matrix, fixed_thetas=None):
                 'test_conds': [int(v) for v in te[0].pattern_descriptors['orig']],
                 'skipped': bool(tr[0].n_rdm == 0 or te[0].n_rdm == 0
                                 or tr[0].n_cond <= 2 or te[0].n_cond <= 2)})
+            rec['test_objs'].append(te)     # te[1] is expanded in place by _internal_cv later
 
     def sets_hook(*a, **kw):
         out = real_sets(*a, **kw)
@@ -408,7 +428,9 @@ def _cv_once(case, matrix, fixed_thetas=None):
         call['rsel'] = [_code_of(rmap, v) for v in log[0]] if log else None
         call['psels'] = [[_code_of(pmap, v) for v in l] for l in log[1:]]
         rec['calls'].append(call)
-        rec['evals'] += [float(v) for v in np.asarray(out[0])[0, 0]]
+        ret = np.asarray(out[0])            # the evaluations crossval returned: (1, models, folds)
+        for j_ in range(len(models)):
+            rec['evals'][j_] += [float(v) for v in ret[0, j_]]
         return out
 
     ev.compare = compare_hook
@@ -422,7 +444,7 @@ def _cv_once(case, matrix, fixed_thetas=None):
                 if case.get('bootcv'):
                     b, prm = case['bootcv'], case['params']
                     np.random.seed(b['seed'])
-                    ev.bootstrap_crossval(model if case.get('bare_model') else [model], rdms,
+                    ev.bootstrap_crossval(model_arg, rdms,
                                           method=case['method'], fitter=fitter,
                                           k_pattern=prm.get('k_pattern'), k_rdm=prm.get('k_rdm'), N=b['N'],
                                           n_cv=b['n_cv'], pattern_descriptor=pby, rdm_descriptor=rby,
@@ -430,23 +452,38 @@ def _cv_once(case, matrix, fixed_thetas=None):
                     evals = rec['evals']
                 elif case.get('boot_pidx') is not None:
                     prm = case['params']
-                    evals, _nc = ev._internal_cv([model], rdms, pby, rby, list(case['boot_pidx']),
+                    evals, _nc = ev._internal_cv(models, rdms, pby, rby, list(case['boot_pidx']),
                                                  prm['k_pattern'], prm['k_rdm'], case['method'], fitter)
-                    evals = np.asarray(evals)[0, 0]
+                    evals = [[float(v) for v in row] for row in np.asarray(evals)[0]]
                 else:
                     train, test, ceil = _call_gen(case, rdms)
                     note_sets(train, test)
-                    res = ev.crossval(model if case.get('bare_model') else [model], rdms, train, test,
+                    res = ev.crossval(model_arg, rdms, train, test,
                                       ceil_set=ceil, method=case['method'],
                                       fitter=fitter, pattern_descriptor=pby or 'index',
                                       calc_noise_ceil=bool(case.get('calc_nc', False)))
-                    evals = np.asarray(res.evaluations)[0, 0]
+                    evals = [[float(v) for v in row] for row in np.asarray(res.evaluations)[0]]
             except _Timeout:
                 return {'timeout': True, 'log': tap.log}
             except Exception as exc:  # noqa: BLE001
                 return {'exc': _exc_name(exc), 'log': tap.log}
-        rec['evals'] = [float(v) for v in evals]
+        rec['evals'] = evals
         rec['log'] = tap.log
+        # the score of every (fold, model) recomputed directly from the returned test set, the
+        # recorded θ and the library's own predict / compare (independent of crossval's bookkeeping)
+        rec['direct'] = []
+        live_objs = [te for te, s_ in zip(rec['test_objs'], rec['sets']) if not s_['skipped']]
+        if len(rec['raw_thetas']) == len(live_objs) * len(models):
+            with np.errstate(all='ignore'), warnings.catch_warnings():
+                warnings.simplefilter('ignore')
+                for pos, te in enumerate(live_objs):
+                    for j_, m_ in enumerate(models):
+                        try:
+                            pred = m_.predict_rdm(copy.deepcopy(rec['raw_thetas'][pos * len(models) + j_]))
+                            pred = pred.subsample_pattern(by=pby or 'index', value=te[1])
+                            rec['direct'].append(float(np.mean(real_compare(pred, te[0], case['method']))))
+                        except Exception:  # noqa: BLE001
+                            rec['direct'].append(None)
         return rec
     finally:
         ev.compare = real_compare
@@ -490,19 +527,35 @@ def _crossval_experiment(case):
     if case.get('bootcv'):
         r0['log'] = r0['calls']
     live = [q for q, s in enumerate(r0['sets']) if not s['skipped']]
+    nM = len(_model_specs(case))
     out = {'n_folds': len(r0['sets']), 'live': live,
            'fit': [{k: c[k] for k in ('rows', 'conds', 'vecs', 'pidx')} for c in r0['fit']],
            'cmp': [{k: c[k] for k in ('rows', 'conds', 'vecs')} for c in r0['cmp']],
            'pred_matches_test': [bool(c['pred_ok']) for c in r0['cmp']],
-           'calls_match': len(r0['fit']) == len(live) and len(r0['cmp']) == len(live),
+           'n_models': nM,
+           'calls_match': len(r0['fit']) == len(live) * nM and len(r0['cmp']) == len(live) * nM
+           and r0['fit_model'] == [j for _ in live for j in range(nM)],
+           'stored_matches': [],
            'n_calls': len(r0['calls']),
            'k_used': sorted(set((c['k_rdm'], c['k_pattern']) for c in r0['calls'])),
            'theta_stable': [], 'score_stable': [], 'fit_args_stable': [],
            'perturbed_test_only': [], 'perturbed_train_only': [], 'sensitive': False}
     if not out['calls_match']:
         return out, r0['log']
+    def same(a, b):
+        return _same_float_lists([a], [b])
+
     for pos, q in enumerate(live):
         s = r0['sets'][q]
+        cs = range(pos * nM, (pos + 1) * nM)          # the calls of this fold, one per model
+        # what crossval *returned* for (model, fold) is the score of that model on this fold's
+        # test set with this fold's θ (as seen at the compare hook and as recomputed directly)
+        out['stored_matches'].append(bool(
+            len(r0['evals']) == nM and all(len(r0['evals'][j]) == len(r0['sets']) for j in range(nM))
+            and len(r0['direct']) == len(live) * nM
+            and all(same(r0['evals'][j][q], r0['hook_scores'][pos * nM + j])
+                    and r0['direct'][pos * nM + j] is not None
+                    and same(r0['evals'][j][q], r0['direct'][pos * nM + j]) for j in range(nM))))
         trr, trc = set(s['train_rows']), set(s['train_conds'])
         ter, tec = set(s['test_rows']), set(s['test_conds'])
         # (a) overwrite every entry that involves a test-only condition or a test-only RDM
@@ -512,8 +565,9 @@ def _crossval_experiment(case):
         if 'timeout' in r1:
             return {'skip': 'fitter did not return within %.0f s' % FIT_SECONDS}, []
         ok_theta = 'exc' not in r1 and len(r1['thetas']) == len(r0['thetas']) \
-            and _same_float_lists([r1['thetas'][pos]], [r0['thetas'][pos]])
-        ok_args = 'exc' not in r1 and len(r1['fit']) == len(r0['fit']) and r1['fit'][pos] == r0['fit'][pos]
+            and all(same(r1['thetas'][c], r0['thetas'][c]) for c in cs)
+        ok_args = 'exc' not in r1 and len(r1['fit']) == len(r0['fit']) \
+            and all(r1['fit'][c] == r0['fit'][c] for c in cs)
         out['theta_stable'].append(bool(ok_theta))
         out['fit_args_stable'].append(bool(ok_args))
         out['perturbed_test_only'].append(n1)
@@ -521,13 +575,14 @@ def _crossval_experiment(case):
         m2, n2 = _perturb(case, base, lambda r, i, j: r in ter and i in tec and j in tec,
                           case['pseed'] + 2 * q + 1)
         r2 = _cv_once(case, m2, fixed_thetas=r0['raw_thetas'])
-        ok_score = 'exc' not in r2 and len(r2['evals']) == len(r0['evals']) \
-            and _same_float_lists([r2['evals'][q]], [r0['evals'][q]])
+        ok_score = 'exc' not in r2 and len(r2['evals']) == nM == len(r0['evals']) \
+            and all(len(r2['evals'][j]) == len(r0['evals'][j]) > q
+                    and same(r2['evals'][j][q], r0['evals'][j][q]) for j in range(nM))
         out['score_stable'].append(bool(ok_score))
         out['perturbed_train_only'].append(n2)
-        if 'exc' not in r2 and not _same_float_lists(r2['evals'], r0['evals']):
+        if 'exc' not in r2 and not same(r2['evals'], r0['evals']):
             out['sensitive'] = True
-        if 'exc' not in r1 and not _same_float_lists(r1['evals'], r0['evals']):
+        if 'exc' not in r1 and not same(r1['evals'], r0['evals']):
             out['sensitive'] = True
     return out, r0['log']
 
@@ -647,11 +702,17 @@ def model_result(case, answers):
     live = [q for q, f in enumerate(folds)
             if not (len(f['train']['rows']) == 0 or len(f['test']['rows']) == 0
                     or len(f['train']['conds']) <= 2 or len(f['test']['conds']) <= 2)]
+    nM = len(_model_specs(case))
     return {'n_folds': len(folds), 'live': live, **({'n_calls': a['n_calls']} if 'n_calls' in a else {}),
             **({'k_used': a['k_used']} if 'k_used' in a else {}),
-            'fit': [{k: folds[q]['train'][k] for k in ('rows', 'conds', 'vecs', 'pidx')} for q in live],
-            'cmp': [{k: folds[q]['test'][k] for k in ('rows', 'conds', 'vecs')} for q in live],
-            'pred_matches_test': [True] * len(live), 'calls_match': True,
+            'n_models': nM,
+            # every model of a fold is fitted on the same training part and scored on the same test part
+            'fit': [{k: folds[q]['train'][k] for k in ('rows', 'conds', 'vecs', 'pidx')}
+                    for q in live for _ in range(nM)],
+            'cmp': [{k: folds[q]['test'][k] for k in ('rows', 'conds', 'vecs')}
+                    for q in live for _ in range(nM)],
+            'pred_matches_test': [True] * (len(live) * nM), 'calls_match': True,
+            'stored_matches': [True] * len(live),
             'theta_stable': [True] * len(live), 'score_stable': [True] * len(live),
             'fit_args_stable': [True] * len(live)}
 
@@ -737,6 +798,11 @@ def features(case, impl):
             br.append('cv:timeout')
         if ok and case.get('bare_model'):
             br.append('cv:bare_model')
+        if ok and impl.get('n_models', 1) >= 2 and len(impl.get('live', [])) >= 2:
+            br.append('cv:multi_model_multi_fold')
+            if impl.get('n_models') >= 3:
+                br.append('cv:three_models')
+        f['n_models'] = len(_model_specs(case))
         if isinstance(impl, dict) and any(impl.get('perturbed_test_only', [])) \
                 and any(impl.get('perturbed_train_only', [])) and impl.get('sensitive'):
             br.append('cv:perturbed')
@@ -756,7 +822,8 @@ def nontrivial_key(case, impl):
     if not n or n < 2:
         return None
     return [case['kind'], case['gen'], case['params'], case['rdm'], case['pat'],
-            case.get('shuffle'), case.get('model'), case.get('boot_pidx'), case.get('bootcv'),
+            case.get('shuffle'), case.get('model'), case.get('extra_models'), case.get('boot_pidx'),
+            case.get('bootcv'),
             case.get('method'), case.get('calc_nc')]
 
 
@@ -867,6 +934,27 @@ def _gen_sets_case(rng, gen=None, malformed=False):
     return case
 
 
+def _extra_models(rng, case):
+    """one or two further models (cheap, deterministic fitters; own seeds -> distinguishable
+    predictions) unless the case passes a bare Model"""
+    if case.get('bare_model'):
+        return
+    base = case['model']
+    extra = []
+    for _ in range(rng.choice([1, 2, 2])):
+        ms = {'type': rng.choice(['fixed', 'select', 'weighted']), 'n_cond': base['n_cond'],
+              'n_rdm': rng.randint(2, 3), 'seed': rng.randrange(10 ** 6)}
+        if base.get('g'):
+            ms['g'] = list(base['g'])
+        if ms['type'] == 'weighted':
+            ms['fitter'] = 'regress'
+            ms['ridge'] = rng.choice([0.5, 1.0, 2.0])
+        extra.append(ms)
+    pos = rng.randint(0, len(extra))          # the primary model is not always the first
+    case['extra_models'] = extra
+    case['primary_pos'] = pos
+
+
 def _gen_bootcv_case(rng):
     """the public entry point bootstrap_crossval (real bootstrap draws under a seed, every sample
     it cross-validates is described to the model by a hook on _internal_cv)"""
@@ -891,9 +979,11 @@ def _gen_bootcv_case(rng):
     if rng.random() < 0.3:
         # default fold counts: default_k_*((1 - 1/e) * number of groups), 1 for a single rdm group
         case['params'] = {'random': True, 'k_rdm': None, 'k_pattern': None}
-        case['bare_model'] = True
+        if rng.random() < 0.3:
+            case['bare_model'] = True
         if rng.random() < 0.3:
             case['rdm'].update({'by': 'g', 'g': [7] * nR, 'index': None})
+    _extra_models(rng, case)
     return case
 
 
@@ -981,12 +1071,13 @@ def _gen_crossval_case(rng):
             method = rng.choice(['cosine_cov', 'corr_cov'])
     if calc_nc:
         case['calc_nc'] = True
-    if not boot and rng.random() < 0.25:
+    if not boot and rng.random() < 0.12:
         case['bare_model'] = True       # a Model instead of a list of models
     case['values'] = 'random'
     case['dseed'] = rng.randrange(10 ** 6)
     case['pseed'] = rng.randrange(10 ** 6)
     case['method'] = method
+    _extra_models(rng, case)
     return case
 
 
@@ -1241,6 +1332,11 @@ def _oracle_crossval(case):
         return _viol('the fitter / comparison is not called once per evaluable fold',
                      [len(res['fit']), len(res['cmp'])], len(res['live']), **feat)
     for pos, q in enumerate(res['live']):
+        if not res['stored_matches'][pos]:
+            return _viol(f'fold {q}: an evaluation returned by crossval for (model, fold) is not the score of '
+                         f'that model on that fold\'s test set with that fold\'s fitted parameters',
+                         'returned evaluations differ from the per-fold scores', 'equal',
+                         fold=q, part='stored', n_models=res['n_models'], **feat)
         if not res['theta_stable'][pos] or not res['fit_args_stable'][pos]:
             return _viol(f'fold {q}: fitted parameters (or the data handed to the fitter) change when only '
                          f'dissimilarities involving test-only conditions / rdms are overwritten',
